@@ -143,11 +143,43 @@ class C12(Property):
     lean_module = "RosuModel.Props.C12"
     namespace = "Rosu.C12"
     design_ref = "5.12"
-    level_text = ""          # filled below
+    level_text = (
+        "Lean 4 theorems over the model of parse_timing_points / add_control_point / flush_pending_points / From<TimingPointsState> "
+        "(Model/TimingDecode.lean, with Model/General.lean and Model/ControlPoints.lean), for every [Scalar F] and every sequence of lines, unbounded: "
+        "pending_eq_groups — decoding any line sequence from a state with no open group equals the legacy model: the accepted lines cut into groups "
+        "(a line within eps of the previous accepted line continues its group), each group resolved per kind (last inherited line, else first "
+        "timing-change line; timing points from timing-change lines only) and added through the public add in the order timing, difficulty, effect, "
+        "sample (flush_order, addGroup_eq_ops — so C13's redundancy / replacement / ordering theorems apply to every group); rejected lines leave no "
+        "trace (rejected_line_no_trace); lists_strictly_sorted for any interleaving of lines; clamps (beat length, slider velocity, scroll speed only "
+        "in taiko/mania and exactly 1 elsewhere, volume) as an invariant of every stored and pending point; line_fields_* (defaults of omitted trailing "
+        "fields, timing_change default true and first-character test, sample set never None, volume in [0,100]); nan_only_inherited / nan_inherited_point. "
+        "Model tied to the code on every run through the public TimingPoints::parse_general / parse_timing_points / From on exhaustive short sequences "
+        "over the property's line alphabet in all four modes + random long sequences (omitted trailing fields, malformed fields, comments, whitespace, "
+        "[General] lines) + the [General] parser alone + the number-codec differential; an independent transcription of the legacy group rule is evaluated "
+        "on the implementation for the failing-input search.")
     technique = ("Lean 4 proof (induction over line histories; refinement of the pending-slot state machine by the declarative group rule) "
                  "+ differential correspondence on the public parse_general / parse_timing_points API")
-    required_theorems = []
-    partial_theorems = {}
+    required_theorems = [
+        "pending_eq_groups", "runLines_finish", "runStrs_eq_runLines", "group_pending_eq_resolve", "applyTpLine_eq",
+        "push_front_keeps_first", "push_front_fills_empty", "push_back_takes_last", "foldl_slot_all", "foldl_slot_timing",
+        "flush_order", "addGroup_eq_ops", "rejected_line_no_trace",
+        "lists_strictly_sorted", "lists_strictly_sorted_fresh",
+        "clamps", "clamp_within", "line_clamped", "scroll_one_outside_taiko_mania", "clampVolume_range",
+        "line_fields_defaults", "line_fields_timing_change", "line_fields_sample_set", "line_fields_omitted", "line_fields_volume",
+        "line_fields_too_short", "parseTpRaw_ok",
+        "nan_only_inherited", "nan_inherited_point",
+        "inv_create", "inv_parseGeneral", "inv_applyTpLine",
+    ]
+    partial_theorems = {
+        "pending_eq_groups": "law-dependent: assumes sameGroup t t (|t - t| < eps) for the times of accepted lines — true for finite IEEE values "
+                             "(accepted times are finite: parse_num bounds them by +-(2^31-1) and rejects NaN) but not kernel-checked for Float; "
+                             "shown satisfiable on the toy instance Z",
+        "clamps": "law-dependent: ClampLaws (lo <= hi, < irreflexive on the bounds) for the three literal ranges; the range is stated as "
+                  "not(y < lo) and not(hi < y), which is lo <= y <= hi only for non-NaN y — that stored values are not NaN is not proved "
+                  "(the implementation-level oracle checks 6 <= beat_len etc. with IEEE comparisons on every case)",
+        "nan_inherited_point": "law-dependent: NaN < 0 is false",
+        "lists_strictly_sorted": "ordering is by the total_cmp key, not by time (+0.0 / -0.0: finding F8, see C13)",
+    }
     trusted_base = [
         "Lean 4.33.0 kernel",
         "axioms: at most propext, Classical.choice, Quot.sound (audited per theorem with #print axioms)",
